@@ -133,9 +133,9 @@ class C17(Prop):
                 df = TraceDiff.compare_traces(lc, lt, case["csel"][0], case["tsel"][0], case["csel"][1], case["tsel"][1], dev, case["short"])
                 cl, tl = str(df.columns[0])[:-len("_counts")], str(df.columns[2])[:-len("_counts")]
                 for name, row in df.iterrows():
-                    obs["table"].append({"name": str(name), "cc": hta.ival(row[f"{cl}_counts"]), "tc": hta.ival(row[f"{tl}_counts"]),
-                                         "cd": hta.ival(row[f"{cl}_total_duration"]), "td": hta.ival(row[f"{tl}_total_duration"]),
-                                         "dc": hta.ival(row["diff_counts"]), "dd": hta.ival(row["diff_duration"]),
+                    obs["table"].append({"name": str(name), "cc": hta.oval(row[f"{cl}_counts"]), "tc": hta.oval(row[f"{tl}_counts"]),
+                                         "cd": hta.oval(row[f"{cl}_total_duration"]), "td": hta.oval(row[f"{tl}_total_duration"]),
+                                         "dc": hta.oval(row["diff_counts"]), "dd": hta.oval(row["diff_duration"]),
                                          "cat": str(row["counts_change_categories"])})
                 # history on the same LabeledTrace objects: ops_diff (always long names), then the comparison in the other name mode
                 lc.label, lt.label = (la, lb) if lc is not lt else (la, la)
@@ -146,9 +146,9 @@ class C17(Prop):
                 df2 = TraceDiff.compare_traces(lc, lt, case["csel"][0], case["tsel"][0], case["csel"][1], case["tsel"][1], dev, not case["short"])
                 cl, tl = str(df2.columns[0])[:-len("_counts")], str(df2.columns[2])[:-len("_counts")]
                 for name, row in df2.iterrows():
-                    obs["table2"].append({"name": str(name), "cc": hta.ival(row[f"{cl}_counts"]), "tc": hta.ival(row[f"{tl}_counts"]),
-                                          "cd": hta.ival(row[f"{cl}_total_duration"]), "td": hta.ival(row[f"{tl}_total_duration"]),
-                                          "dc": hta.ival(row["diff_counts"]), "dd": hta.ival(row["diff_duration"]),
+                    obs["table2"].append({"name": str(name), "cc": hta.oval(row[f"{cl}_counts"]), "tc": hta.oval(row[f"{tl}_counts"]),
+                                          "cd": hta.oval(row[f"{cl}_total_duration"]), "td": hta.oval(row[f"{tl}_total_duration"]),
+                                          "dc": hta.oval(row["diff_counts"]), "dd": hta.oval(row["diff_duration"]),
                                           "cat": str(row["counts_change_categories"])})
             except Exception as ex:
                 obs["err"] = hta.exc_str(ex)
